@@ -29,6 +29,16 @@
 (*   LiveNotified     owed ~> delivered (or session closed), under WF(Tick)  *)
 (*   NoSurprise       (witness, expected to FAIL: deviation D-D1) a legacy   *)
 (*                    session never receives a kind its handshake omitted    *)
+(*                                                                           *)
+(* Exhaustive configurations (tools/checks/x06.py; all small, all complete): *)
+(*   quick     2 kinds, L1 + M1, every want set: 141 834 states (safety);    *)
+(*             liveness with L1 alone (2 356) and M1 alone (5 141)           *)
+(*   thorough  the 141 834-state configuration with liveness; 3 kinds with   *)
+(*             L1 alone (79 640) and M1 alone (258 473), 2 kinds with L1+L2  *)
+(*             (67 732), all with liveness; -coverage 1: no dead action      *)
+(* Behaviours for the replay: transition covers of the ImplView state graph  *)
+(* (2 kinds: 1 508 nodes / 9 924 edges; 3 kinds: 17 336 / 147 888) and       *)
+(* -simulate runs of CapabilitiesDynGen (3 kinds, L1 L2 M1 M2, 24 steps).    *)
 EXTENDS CapabilitiesDefs
 
 CONSTANTS DKinds, Legacy, Modern, Wants
@@ -118,7 +128,7 @@ NeverOwedTwoKinds == \A s \in Sess : Cardinality(owed[s]) < 2
 
 \* values for the constant Wants
 AllWants == SUBSET DKinds
-FewWants == {{}, {"tools"}, DKinds}
+FewWants == {{}, {CHOOSE k \in DKinds : TRUE}, DKinds}
 
 \* the implementation's observable state (no ghosts): VIEW for the transition-cover graph
 ImplView == <<cfg, reg, pend, status, subs>>
